@@ -269,9 +269,12 @@ class World(object):
             mid = world.model_ids.get(id(model), 99)
             world.items.append([SLOT[slot], cb, mid, world.state_of(model), arg, opt(err),
                                 bool(ret), [list(a) for a in acts]])
-            for k_act, a in enumerate(acts):
-                world.cur_pos, world.cur_k = mypos, k_act
-                world.perform(a)
+            if acts and getattr(world, 'perform_all', None) is not None:
+                world.perform_all(acts, mypos)      # the harness may batch actions (e.g. one remove_model([...]) call)
+            else:
+                for k_act, a in enumerate(acts):
+                    world.cur_pos, world.cur_k = mypos, k_act
+                    world.perform(a)
             if exn is not None:
                 raise make_exc(exn)
             return bool(ret)
@@ -382,6 +385,54 @@ def impl_flat(case):
             res = [1, classify_exc(ex)]
         out.append([world.items, res, state_int(model)])
     return [1, out]
+
+
+def trim_flat(case):
+    """at most one callback per list and one check per transition: the gathered stages of the asyncio engine then
+    have nothing to interleave and it runs exactly the callbacks of the synchronous one"""
+    m = case['machine']
+    for key in ('prepare_event', 'before_sc', 'after_sc', 'finalize', 'on_exception', 'on_final'):
+        m[key] = m[key][:1]
+    for s, d in m['states']:
+        d['enter'], d['exit'] = d['enter'][:1], d['exit'][:1]
+    for e, ts in m['events']:
+        for t in ts:
+            for key in ('prepare', 'before', 'after', 'conds'):
+                t[key] = t[key][:1]
+    return case
+
+
+def impl_flat_async(case):
+    """impl_flat on the flat asyncio classes: every call awaited to completion on one event loop"""
+    import asyncio
+    world = World(case['env'], case['machine']['send'])
+    world.state_of = state_int
+    world.perform = lambda a: None
+    cname = case.get('cls', 'AsyncMachine')
+    loop = asyncio.new_event_loop()
+    try:
+        machine, model = build_machine(case, world, cls=get_class(cname), extra_kwargs=class_kwargs(cname))
+        world.model_ids[id(model)] = case.get('model', 0)
+        world.current_model = model
+        out = []
+        for k, e, a in case['history']:
+            tok = Token(a)
+            world.items = []
+            name = 'e%d' % e
+            try:
+                if k == 0:
+                    r = _call(loop, model.trigger, name, tok, k=tok)
+                elif k == 1:
+                    r = _call(loop, model.may_trigger, name, tok, k=tok)
+                else:
+                    r = _call(loop, getattr(model, name), tok, k=tok)
+                res = [0, bool(r)]
+            except BaseException as ex:  # noqa
+                res = [1, classify_exc(ex)]
+            out.append([world.items, res, state_int(model)])
+        return [1, out]
+    finally:
+        loop.close()
 
 
 # ------------------------------------------------------------------ C04: survivor vs fresh machine, every class
